@@ -375,6 +375,37 @@ fn main() {
                 }
                 // every reported occurrence sits on an opening quote of the input, followed by the literal's text
                 // closed world of hook names: every `_ddiast.NAME` in the output is a configured replacement name
+                // C16 probe (not a registered check): repeating the same call in this process gives a different content
+                "repeat_differs" => {
+                    let n = v.as_u64().unwrap_or(5);
+                    let mut diff = None;
+                    for i in 0..n {
+                        let r = std::panic::catch_unwind(std::panic::AssertUnwindSafe(|| {
+                            rewriter::rewrite_js(w.source.clone(), &w.file_name, &config, &MemReader { files: w.files.clone() })
+                                .map(|o| rewriter::print_js(&o.code, &o.source_map, &o.original_source_map, &config).into_owned())
+                        }));
+                        let c2 = match r { Ok(Ok(c)) => c, Ok(Err(e)) => format!("ERR {e}"), Err(_) => "PANIC".to_string() };
+                        if c2 != content && diff.is_none() { diff = Some(format!("run {} differs: {} vs {} bytes", i + 2, c2.len(), content.len())); }
+                    }
+                    println!("--- repeated call: {:?}", diff);
+                    diff.is_some()
+                }
+                // decided by the driver (tools/replaylib.py): the call did not return within the time limit; a run that gets
+                // here has returned
+                "hangs" => false,
+                // every hook name the output dereferences has a pass-through in the file prologue (`NAME: noop`)
+                "hook_missing_in_prologue" => {
+                    let mut bad = None;
+                    let mut rest = code.as_str();
+                    while let Some(i) = rest.find("_ddiast.") {
+                        let tail = &rest[i + 8..];
+                        let name: String = tail.chars().take_while(|c| c.is_ascii_alphanumeric() || *c == '_' || *c == '$').collect();
+                        if !name.is_empty() && !code.contains(&format!("{name}: noop")) && bad.is_none() { bad = Some(name.clone()); }
+                        rest = &tail[name.len()..];
+                    }
+                    println!("--- hook used without a pass-through in the prologue: {:?}", bad);
+                    bad.is_some() == v.as_bool().unwrap()
+                }
                 "unconfigured_hook_referenced" => {
                     let allowed: Vec<String> = methods.iter().map(|m| m.dst.clone()).collect();
                     let mut bad = None;
